@@ -1,7 +1,7 @@
 /-
 Color666ToricCode, square sizes `L ≥ 1`: faces, supports (the six wrapped corners of a hexagon, no
 duplicate keys) and the overlap of two faces.  With
-`e = ((bx − ax) % 9L, ((3by − 2bx) − (3ay − 2ay)) % 36L)` the corner `a + d` of the face `a` is a
+`e = ((bx − ax) % 9L, ((3by − 2bx) − (3ay − 2ax)) % 36L)` the corner `a + d` of the face `a` is a
 corner of the face `b` iff `e = d − d'` (in the coordinates `(x, 3y − 2x)`, modulo `(9L, 36L)`) for
 a delta `d'`; as `e ≡ (0, 0)` modulo `(3, 12)` only `(0,0), ±(3,0), ±(0,12), ±(3,−12)` occur.
 The membership lemmas `hh1 … hh6` are generated (one per corner).  Core Lean only.
